@@ -39,6 +39,9 @@ CONSTANTS
     AllowLsn,    \* the listener may be closed while the connection is relayed
     FixLost,     \* TRUE: model of the code with fixes/F11 applied
     FixCross,    \* TRUE: model of the code with fixes/F12 applied
+    Win,         \* channel window in data units (one unit = one maximum packet);
+                 \*   0: flow control not modelled (window never exhausted)
+    AdjustOnlyOpen, \* sensitivity: WINDOW_ADJUST refused once the peer's EOF arrived
     EarlyBias,   \* generation only: the confirmation is held back until L
                  \*   wrote two units or sent its FIN (more early-data behaviours)
     DropEarly,   \* sensitivity: early data is dropped at confirmation
@@ -78,6 +81,11 @@ Init ==
             lsn |-> "open", conn |-> "up",
             \* history for the properties
             failed |-> FALSE, confirmed |-> FALSE, reset |-> B2,
+            win |-> [O |-> Win, A |-> Win],        \* channel _send_window (units)
+            rwin |-> [O |-> Win, A |-> Win],       \* channel _recv_window
+            sbuf |-> [O |-> <<>>, A |-> <<>>],     \* channel _send_buf
+            perr |-> "",                            \* side that hit a protocol error
+            envcut |-> FALSE,                       \* the environment cut the connection
             exempt |-> B2,                          \* e closed before it saw EOF: data towards e may be lost
             finAfterEof |-> FALSE]                  \* an end sent its FIN after it had seen EOF
     /\ lbl = <<"init">>
@@ -90,11 +98,26 @@ Send(s, x, m) == IF x = "O" THEN [s EXCEPT !.qOA = Append(@, m)]
 
 \* SSHChannel.write / write_eof / close as used by X and Y (forward.py 85-105
 \* swallow the BrokenPipeError of a channel that is not open for sending)
-ChanWrite(s, x, ds) == IF s.ch[x].s = "open" THEN Send(s, x, Msg("data", ds)) ELSE s
+\* channel.py _flush_send_buf: one packet per unit while the window allows,
+\* then the pending EOF / CLOSE ("eofp" / "closep" = eof_pending / close_pending)
+RECURSIVE FlushSend(_, _)
+FlushSend(s, x) ==
+    IF s.sbuf[x] # <<>> /\ s.win[x] > 0
+    THEN FlushSend(Send([s EXCEPT !.sbuf[x] = Tail(@), !.win[x] = @ - 1], x,
+                        Msg("data", <<Head(s.sbuf[x])>>)), x)
+    ELSE IF s.sbuf[x] = <<>> /\ s.ch[x].s = "eofp"
+    THEN Send([s EXCEPT !.ch[x].s = "eof"], x, Msg("eof", <<>>))
+    ELSE IF s.sbuf[x] = <<>> /\ s.ch[x].s = "closep"
+    THEN Send([s EXCEPT !.ch[x].s = "closed"], x, Msg("close", <<>>))
+    ELSE s
+ChanWrite(s, x, ds) ==
+    IF s.ch[x].s # "open" THEN s
+    ELSE IF Win = 0 THEN Send(s, x, Msg("data", ds))
+    ELSE FlushSend([s EXCEPT !.sbuf[x] = @ \o ds], x)
 ChanEof(s, x) == IF s.ch[x].s = "open"
-                 THEN Send([s EXCEPT !.ch[x].s = "eof"], x, Msg("eof", <<>>)) ELSE s
-ChanClose(s, x) == IF s.ch[x].s \in {"open", "eof"}
-                   THEN Send([s EXCEPT !.ch[x].s = "closed"], x, Msg("close", <<>>)) ELSE s
+                 THEN FlushSend([s EXCEPT !.ch[x].s = "eofp"], x) ELSE s
+ChanClose(s, x) == IF s.ch[x].s \in {"open", "eofp", "eof"}
+                   THEN FlushSend([s EXCEPT !.ch[x].s = "closep"], x) ELSE s
 
 \* SSHForwarder.close() reached from either member of the pair on side x:
 \* the socket transport is closed (FIN to the application, which may react
@@ -134,6 +157,23 @@ AppDeliver(s, e, ds) ==
     IF s.sock[e] = "open" /\ s.appSt[e] = "open"
     THEN [s EXCEPT !.rcvd[e] = @ \o ds] ELSE s
 
+\* channel.py _process_data -> _accept_data -> _deliver_data: data that arrives
+\* after the local close is dropped unaccounted; otherwise the receive
+\* window shrinks and is refilled once less than half of it is left
+RecvData(s, x, ds) ==
+    IF s.ch[x].s \in {"closep", "closed"} \/ s.pair[x] \notin {"up", "zombie"} THEN s
+    ELSE LET r == s.rwin[x] - Len(ds)
+             s1 == IF Win > 0 /\ 2 * r < Win
+                   THEN Send([s EXCEPT !.rwin[x] = Win], x, Msg("adjust", <<Win - r>>))
+                   ELSE [s EXCEPT !.rwin[x] = IF Win = 0 THEN @ ELSE r]
+         IN AppDeliver(s1, End(x), ds)
+
+\* channel.py _process_window_adjust
+RecvAdjust(s, x, n) ==
+    IF s.ch[x].r \notin {"open", "eof"} \/ (AdjustOnlyOpen /\ s.ch[x].r # "open")
+    THEN [s EXCEPT !.perr = x]
+    ELSE FlushSend([s EXCEPT !.win[x] = @ + n], x)
+
 \* FL / P .write_eof(): the application sees EOF; one that does not keep
 \* half-open connections closes, which the forwarder sees as EOF
 AppGetsFin(s, e) ==
@@ -160,8 +200,9 @@ RecvEof(s, x) ==
 
 \* channel CLOSE delivered (channel.py _process_close -> _cleanup -> connection_lost)
 RecvClose(s, x) ==
-    LET s1 == IF s.ch[x].s \in {"open", "eof"}
-              THEN Send([s EXCEPT !.ch[x].s = "closed"], x, Msg("close", <<>>)) ELSE s
+    LET s1 == IF s.ch[x].s \in {"open", "eofp", "eof", "closep"}   \* _close_send: unsent data is discarded
+              THEN Send([s EXCEPT !.ch[x].s = "closed", !.sbuf[x] = <<>>], x,
+                        Msg("close", <<>>)) ELSE s
         s2 == [s1 EXCEPT !.ch[x].r = "closed"]
     IN IF s2.pair[x] \in {"up", "zombie"} THEN PairClose(s2, x) ELSE s2
 
@@ -185,9 +226,8 @@ StepO(s) ==
                  ELSE Flush([s1 EXCEPT !.pair.O = "up"])
          [] m.t = "fail" ->
               PairClose([s0 EXCEPT !.ch.O = [s |-> "closed", r |-> "closed"]], "O")
-         [] m.t = "data" ->
-              IF s0.ch.O.s = "closed" \/ s0.pair.O \notin {"up", "zombie"} THEN s0
-              ELSE AppDeliver(s0, "L", m.ds)
+         [] m.t = "data" -> RecvData(s0, "O", m.ds)
+         [] m.t = "adjust" -> RecvAdjust(s0, "O", m.ds[1])
          [] m.t = "eof" -> RecvEof(s0, "O")
          [] m.t = "close" -> RecvClose(s0, "O")
 
@@ -204,21 +244,31 @@ StepA(s, ok) ==
               ELSE Send([s0 EXCEPT !.failed = TRUE,
                                    !.ch.A = [s |-> "closed", r |-> "closed"]],
                         "A", Msg("fail", <<>>))
-         [] m.t = "data" ->
-              IF s0.ch.A.s = "closed" \/ s0.pair.A # "up" THEN s0
-              ELSE AppDeliver(s0, "R", m.ds)
+         [] m.t = "data" -> RecvData(s0, "A", m.ds)
+         [] m.t = "adjust" -> RecvAdjust(s0, "A", m.ds[1])
          [] m.t = "eof" -> RecvEof(s0, "A")
          [] m.t = "close" -> RecvClose(s0, "A")
 
 \* the SSH connection object on side x is cleaned up (connection.py _cleanup)
 ConnLost(s, x) ==
-    LET s1 == [s EXCEPT !.ch[x] = [s |-> "closed", r |-> "closed"]]
+    LET s1 == [s EXCEPT !.ch[x] = [s |-> "closed", r |-> "closed"], !.sbuf[x] = <<>>]
         s2 == IF s1.pair[x] \in {"pre", "up", "zombie"} THEN PairClose(s1, x) ELSE s1
     IN IF x = "O" THEN [s2 EXCEPT !.lsn = "closed"] ELSE s2
 
 RECURSIVE DrainO(_), DrainA(_)
-DrainO(s) == IF s.qAO = <<>> THEN s ELSE DrainO(StepO(s))
-DrainA(s) == IF s.qOA = <<>> THEN s ELSE DrainA(StepA(s, TRUE))
+DrainO(s) == IF s.qAO = <<>> \/ s.perr # "" THEN s ELSE DrainO(StepO(s))
+DrainA(s) == IF s.qOA = <<>> \/ s.perr # "" THEN s ELSE DrainA(StepA(s, TRUE))
+
+\* the SSH transport is lost at side x (or x disconnects after a protocol
+\* error): x forgets its unread input and cleans up; the other side still
+\* reads what was in flight, then cleans up
+LoseAt(s, x) ==
+    LET s1 == IF x = "O" THEN [s EXCEPT !.qAO = <<>>] ELSE [s EXCEPT !.qOA = <<>>]
+        s2 == ConnLost(s1, x)
+        s3 == IF x = "O" THEN DrainA(s2) ELSE DrainO(s2)
+        s4 == ConnLost(s3, IF x = "O" THEN "A" ELSE "O")
+    IN [s4 EXCEPT !.conn = "cut", !.qOA = <<>>, !.qAO = <<>>]
+AfterStep(t) == IF t.perr # "" THEN LoseAt(t, t.perr) ELSE t
 
 -----------------------------------------------------------------------------
 (* Actions *)
@@ -260,25 +310,19 @@ Reset(e) ==
 DeliverOA(ok) ==
     /\ Live /\ S.qOA # <<>>
     /\ (~ok => AllowFail /\ Head(S.qOA).t = "open")
-    /\ S' = StepA(S, ok)
+    /\ S' = AfterStep(StepA(S, ok))
     /\ lbl' = <<"DOA", ok>>
 
 DeliverAO ==
     /\ Live /\ S.qAO # <<>>
     /\ (EarlyBias /\ Head(S.qAO).t = "conf" /\ S.appSt.L = "open" =>
             Len(S.sent.L) >= 2 \/ S.appFin.L)
-    /\ S' = StepO(S)
+    /\ S' = AfterStep(StepO(S))
     /\ lbl' = <<"DAO">>
 
-\* the SSH transport is lost at side x: x forgets its unread input and
-\* cleans up; the other side still reads what was in flight, then cleans up
 Cut(x) ==
     /\ AllowCut /\ Live
-    /\ LET s1 == IF x = "O" THEN [S EXCEPT !.qAO = <<>>] ELSE [S EXCEPT !.qOA = <<>>]
-           s2 == ConnLost(s1, x)
-           s3 == IF x = "O" THEN DrainA(s2) ELSE DrainO(s2)
-           s4 == ConnLost(s3, IF x = "O" THEN "A" ELSE "O")
-       IN S' = [s4 EXCEPT !.conn = "cut", !.qOA = <<>>, !.qAO = <<>>]
+    /\ S' = [LoseAt(S, x) EXCEPT !.envcut = TRUE]
     /\ lbl' = <<"CUT", x>>
 
 LsnClose ==
@@ -346,6 +390,18 @@ NoListenerLeft ==
 
 \* the branch "eof_received() is false and the channel still sends" of
 \* channel.py 357-359 is never taken by forwarders (modelled as absent)
+\* flow control never strands data or kills the connection: with nothing in
+\* flight no channel is waiting for window, and only the environment cuts
+NoStall == Quiescent /\ S.conn = "up" =>
+               \A x \in {"O", "A"} : S.ch[x].s \in {"open", "eofp"} => S.sbuf[x] = <<>>
+\* NOT an invariant of the code as it is (witness, expected to be violated with
+\* Win > 0): both ends reset while both directions wait for window - each
+\* closing channel drops the other's data unaccounted, no WINDOW_ADJUST is
+\* ever sent, neither close_pending channel gets to send its CLOSE
+ChannelsEnd == Quiescent /\ S.conn = "up" /\ S.pair.O = "closed" /\ S.pair.A = "closed"
+                   => S.ch.O.s = "closed" /\ S.ch.A.s = "closed"
+NoProtocolError == S.conn = "cut" => S.envcut
+
 NoLateChanEof ==
     NoEofRelay \/ \A x \in {"O", "A"} :
         S.pair[x] = "up" /\ S.fEof[End(x)] => S.ch[x].s # "open"
